@@ -263,7 +263,7 @@ Definition parse_reg_message (cfg : stcfg) (o : storacle) (view : option wrapper
 Record ovsubnet := { os_nil : bool;      (* CIDR.IPNet == nil *)
                      os_v4 : bool;       (* IPNet.IP.To4() != nil *)
                      os_hostbits : N;    (* bits - ones of the mask *)
-                     os_prefix : N       (* prefix.TryFromID(PrefixId): 0 a prefix, 1 an error, 2 (nil, nil) *) }.
+                     os_prefix_id : Z    (* PrefixId *) }.
 Record rpcfg := { rp_transports : list (N * trk);
                   rp_overrides : bool;          (* regOverrides != nil *)
                   rp_auth : bool;               (* authenticated: responses are signed *)
@@ -271,7 +271,8 @@ Record rpcfg := { rp_transports : list (N * trk);
                   rp_enforce : bool;            (* enforceSubnetOverrides *)
                   rp_min_subnets : list ovsubnet; rp_min_weights : nat;     (* len(...CumulativeWeights) *)
                   rp_prefix_subnets : list ovsubnet; rp_prefix_weights : nat;
-                  rp_exclusions : list ovsubnet }.
+                  rp_exclusions : list ovsubnet;
+                  rp_prefix_ids : list Z        (* the keys of prefix.DefaultPrefixes *) }.
 (* library verdicts and random draws inside one request *)
 Record rporacle := { ro_sel : N -> bool -> selres;       (* ipSelector.Select by generation and family *)
                      ro_override_ok : bool;      (* regOverrides.Override returned nil *)
@@ -282,11 +283,24 @@ Record rporacle := { ro_sel : N -> bool -> selres;       (* ipSelector.Select by
 
 Record respsum := { q_has4 : bool; q_has6 : bool; q_port : portobs; q_overridden : bool }.
 
-(* getRandUint32IPv4: Ok false = error return, Ok true = an address was drawn *)
-Definition rand_uint32_ipv4 (s : ovsubnet) : res bool :=
+(* getRandUint32IPv4 / randomInt: Ok false = error return, Ok true = an address was drawn.
+   [guarded]: randomInt refuses an empty range (commit e9db4b8); before, rand.Int was called with it. *)
+Definition rand_uint32_ipv4_gen (guarded : bool) (s : ovsubnet) : res bool :=
   if negb (os_v4 s) then Ok false else
   let hosts := if 32 <=? os_hostbits s then 0 else 2 ^ os_hostbits s in     (* uint32(1 << n) *)
+  if guarded && (hosts =? 0) then Ok false else
   _ <- rand_int_guard (Z.of_N hosts) ;; Ok true.
+Definition rand_uint32_ipv4 := rand_uint32_ipv4_gen true.
+
+(* prefix.TryFromID followed by the method calls overridePrefix makes on the result.
+   Ok true: a prefix; Ok false: ErrUnknownPrefix; Panic: (nil, nil) came back and FlushPolicy() was called on it.
+   [strict]: the bound check is `>=` (commit 04f7448); before, it was `>`. *)
+Definition try_from_id_gen (strict : bool) (ids : list Z) (id : Z) : res bool :=
+  let n := Z.of_nat (length ids) in
+  if (n =? 0)%Z || (id <? -1)%Z || (if strict then (n <=? id)%Z else (n <? id)%Z) then Ok false else
+  if (id =? -1)%Z then _ <- rand_int_guard n ;; Ok true                      (* pickRandomPrefix *)
+  else if existsb (Z.eqb id) ids then Ok true else Panic.
+Definition try_from_id := try_from_id_gen true.
 
 (* the weighted loop `for i, cw := range weights { if randVal < cw { ipNet = subnets[i]... } }` *)
 Definition pick_subnet (subs : list ovsubnet) (nweights : nat) (pick : option nat) : res (option ovsubnet) :=
@@ -358,13 +372,9 @@ Definition process_bd_req (cfg : rpcfg) (o : rporacle) (w : option wrapper) : re
       | Some s => if os_nil s then Ok plain else
                   ok <- rand_uint32_ipv4 s ;;
                   if negb ok then Ok plain else
-                  (* overridePrefix: TryFromID returns (nil, nil) for the id one past the table,
-                     and newPrefix.FlushPolicy() is then a call on a nil interface *)
-                  match os_prefix s with
-                  | 0 => Ok over
-                  | 1 => Ok plain
-                  | _ => Panic
-                  end
+                  (* overridePrefix *)
+                  known <- try_from_id (rp_prefix_ids cfg) (os_prefix_id s) ;;
+                  Ok (if known then over else plain)
       end end
     else Ok plain
   end.
@@ -403,7 +413,8 @@ Record httpreq := { h_post : bool;
                     h_remote_loopback : bool;             (* ip.Equal(127.0.0.1) || ip.Equal(::1) *)
                     h_xff : list (list (option bytes));   (* header values x comma-separated items, each ParseIP(TrimSpace(item)) *)
                     h_clen : Z;                           (* r.ContentLength *)
-                    h_read_ok : bool;                     (* io.ReadAll(r.Body) succeeded *)
+                    h_blen : Z;                           (* number of bytes the body really has *)
+                    h_read_ok : bool;                     (* the transport delivered the body without error *)
                     h_body : option wrapper }.            (* proto.Unmarshal view *)
 
 Definition last_z {A} (l : list A) (back : Z) : res A := index l (Z.of_nat (length l) - back).
@@ -418,11 +429,14 @@ Definition get_remote_addr (r : httpreq) : res (option bytes) :=
           Ok (match it' with Some ip => Some ip | None => h_remote r end)
   end.
 
+Definition max_request_length : Z := 1048576.
+
 (* getC2SFromReq: Err carries no class, the status has been written; we return it as Ok (inl status) *)
 Definition get_c2s_from_req (r : httpreq) : N + wrapper :=
   if negb (h_post r) then inl 405 else
   if (h_clen r <? 33)%Z then inl 400 else
-  if negb (h_read_ok r) then inl 400 else
+  (* io.ReadAll(http.MaxBytesReader(w, r.Body, 1 MiB)), commit c331011 *)
+  if negb (h_read_ok r) || (max_request_length <? h_blen r)%Z then inl 400 else
   match h_body r with None => inl 400 | Some w => inr w end.
 
 Definition handle_register (cfg : rpcfg) (o : rporacle) (r : httpreq) : res N :=
@@ -482,8 +496,8 @@ Definition wf_rpcfg (cfg : rpcfg) : Prop :=
      Forall (fun s => os_nil s = false) (rp_exclusions cfg) /\
      (rp_min_weights cfg <= length (rp_min_subnets cfg))%nat /\
      (rp_prefix_weights cfg <= length (rp_prefix_subnets cfg))%nat /\
-     Forall (fun s => os_nil s = false -> os_v4 s = true -> os_hostbits s < 32) (rp_min_subnets cfg) /\
-     Forall (fun s => os_nil s = false -> os_v4 s = true -> os_hostbits s < 32 /\ os_prefix s < 2) (rp_prefix_subnets cfg)).
+     (* the keys of DefaultPrefixes are 0 .. n-1 *)
+     (forall id, (0 <= id < Z.of_nat (length (rp_prefix_ids cfg)))%Z -> In id (rp_prefix_ids cfg))).
 
 (* configuration accepted by NewRegProcessor / reg_config.toml: key size, override subnets *)
 (* strings.Split never returns an empty slice *)
